@@ -207,9 +207,11 @@ func verifC23RandomRun(res *verifkit.Result, rnd *rand.Rand, run int, allowReset
 							runtime.Gosched()
 						}
 						r.openGate()
-						<-r.done
+						// the parked loader publishes; its request may itself await the load held here
+						// (a range over two chunks), so never wait for the request before releasing that load
 						verifC23WaitCond(2*time.Second, func() bool { return r.timing("cache-load-chunks") })
 						r2.loadGate <- verifC23Outcome{ok: wr.Intn(8) != 0}
+						<-r.done
 						<-r2.done
 						<-r3.done
 						res.Seen(e.class(r2))
